@@ -139,6 +139,10 @@ def probe_deep_nesting():
             continue
         for n in (5, 12, 20, 30, 45, 60, 80, 105):
             probes.append((f"{mod} {rule}", M.Rule(rule), mk(n), n))
+    for inner in ("a", '"a"', "%b1-0", "%x41.42", "<a>"):
+        for n in range(80, 112):
+            probes.append((f"reader element (nested groups around {inner})", ABNFGrammarRule("element"), "(" * n + inner + ")" * n, n))
+    probes.append(("user repetition of 10 050 occurrences", cls.create('zs = *"z" "!"'), "z" * 10050 + "!", 1))
     for name, rule, s, n in probes:
         try:
             rule.parse_all(s)
